@@ -343,7 +343,10 @@ class SBytes(Sym):
         res = z3.IntVal(0)
         for s, o in reversed(list(zip(self.segs, offs))):
             end = zadd(o, s.length())
-            res = z3.If(kz < zint(end), _seg_at(s, zsub(kz if not isinstance(k, int) else k, o)), res)
+            rel = zsub(kz if not isinstance(k, int) else k, o)
+            if isinstance(rel, int) and isinstance(s, (LitSeg, CellSeg)) and not 0 <= rel < s.length():
+                continue  # concrete index outside this concrete-length segment: the guard below would be false
+            res = z3.If(kz < zint(end), _seg_at(s, rel), res)
         return z3.simplify(res)
 
     def concrete_prefix_covers(self, k: int):
@@ -362,6 +365,11 @@ class SBytes(Sym):
 
     def slice(self, lo, hi):
         """[lo:hi] with 0 <= lo <= hi <= len already normalised (ints or z3 terms)"""
+        if len(self.segs) == 1:
+            ln = zsub(hi, lo)
+            if isinstance(ln, int) and ln == 0:
+                return SBytes([], self.kind)
+            return SBytes([_subseg(self.segs[0], lo, ln)], self.kind)
         out = []
         off = 0
         for s in self.segs:
